@@ -407,7 +407,7 @@ class kLeastAbsErrors(pathmodel.AbstractPathModelDAG):
 
         self.solver.set_objective(
             self.solver.quicksum(
-                self.edge_errors_vars[(u, v)] * self.edge_error_scaling.get((u, v), 1) if self.edge_error_scaling.get((u, v), 1) != 1 else self.edge_errors_vars[(u, v)]
+                self.edge_errors_vars[(u, v)] * float(self.edge_error_scaling.get((u, v), 1)) if self.edge_error_scaling.get((u, v), 1) != 1 else self.edge_errors_vars[(u, v)]
                 for (u,v) in self.edge_indexes_basic), 
             sense="minimize"
         )
